@@ -10,10 +10,12 @@ import (
 
 	"github.com/PowerDNS/lightningstream/config"
 	"github.com/PowerDNS/lightningstream/lmdbenv"
+	"github.com/PowerDNS/lightningstream/lmdbenv/dbiflags"
 	"github.com/PowerDNS/lightningstream/lmdbenv/header"
 	"github.com/PowerDNS/lightningstream/lmdbenv/strategy"
 	"github.com/PowerDNS/lightningstream/snapshot"
 	"github.com/PowerDNS/lightningstream/syncer"
+	"github.com/PowerDNS/lightningstream/syncer/hooks"
 	"github.com/PowerDNS/lmdb-go/lmdb"
 	"github.com/PowerDNS/simpleblob/backends/memory"
 )
@@ -222,7 +224,8 @@ func genAppOps(r *Rng, native, allowDup bool, n int) []appOp {
 }
 
 func setClock(ns uint64) {
-	syncer.VerifSetClock(func(time.Time) time.Time { return time.Unix(0, int64(ns)).UTC() })
+	// in the process's local (non-UTC, see main) zone, like time.Now()
+	syncer.VerifSetClock(func(time.Time) time.Time { return time.Unix(0, int64(ns)) })
 }
 
 func areaInstance(r *Rng, n int, dir string) (*AreaOut, error) {
@@ -243,9 +246,40 @@ func areaInstance(r *Rng, n int, dir string) (*AreaOut, error) {
 		st := memory.New()
 		recvOnly := r.Chance(10) // receive-only: captures and merges like any other instance, never stores
 		sweep := r.Chance(25)    // tomb sweeper configured: LoadOnce refuses to re-create markers older than the load cutoff
-		sy, err := newSyncer(env, st, syncerOpts{Native: native, DupHack: hack, Padding: pad, SyncerOpt: syncer.Options{ReceiveOnly: recvOnly}, Mod: func(c *configT, lc *lmdbCfgT) {
+		// dbi_options.override_create_flags for some DBI names (each option applies to its own DBI only)
+		type ovr struct {
+			name  string
+			flags uint
+		}
+		var ovrs []ovr
+		if r.Chance(22) {
+			for _, o := range []ovr{{"app", 0}, {"dup", lmdb.DupSort}, {"ints", strategy.LMDBIntegerKeyFlag}, {"new1", 0}} {
+				if r.Chance(40) {
+					ovrs = append(ovrs, o)
+				}
+			}
+		}
+		// an UpdateSnapshotInfo hook that moves the snapshot's timestamp (as an embedding application may): the stored
+		// NAME must encode the timestamp the NameInfo ends up with
+		hk := hooks.New()
+		nameShift := time.Duration(0)
+		if r.Chance(20) {
+			nameShift = time.Hour
+			hk.UpdateSnapshotInfo = func(si hooks.SnapshotInfo) error {
+				si.NameInfo.Timestamp = si.NameInfo.Timestamp.Add(nameShift)
+				return nil
+			}
+		}
+		sy, err := newSyncer(env, st, syncerOpts{Native: native, DupHack: hack, Padding: pad, SyncerOpt: syncer.Options{ReceiveOnly: recvOnly, Hooks: hk}, Mod: func(c *configT, lc *lmdbCfgT) {
 			if sweep {
 				c.Sweeper = config.Sweeper{Enabled: true, RetentionDays: 1}
+			}
+			if len(ovrs) > 0 {
+				lc.DBIOptions = map[string]config.DBIOptions{}
+				for _, o := range ovrs {
+					f := dbiflags.Flags(o.flags)
+					lc.DBIOptions[o.name] = config.DBIOptions{OverrideCreateFlags: &f}
+				}
 			}
 		}})
 		if err != nil {
@@ -273,6 +307,29 @@ func areaInstance(r *Rng, n int, dir string) (*AreaOut, error) {
 				setClock(clock)
 				_, _ = sy.SendOnce(ctx, env) // creates/updates shadow DBIs in shadow mode
 			}
+		}
+		recreated := false
+		if native && r.Chance(15) {
+			// the application drops a DBI and re-creates it under the same name with other flags while LS keeps running
+			recreated = true
+			clock += 1000
+			setClock(clock)
+			_ = applyApp(env, true, clock, []appOp{{DBI: "ints", Flags: strategy.LMDBIntegerKeyFlag, Key: le32(7), Val: []byte("int")}})
+			clock += 1000
+			setClock(clock)
+			_, _ = sy.SendOnce(ctx, env)
+			_ = env.Update(func(txn *lmdb.Txn) error {
+				if dbi, err := txn.OpenDBI("ints", 0); err == nil {
+					if err := txn.Drop(dbi, true); err != nil {
+						return err
+					}
+				}
+				dbi, err := txn.OpenDBI("ints", lmdb.Create) // plain byte-ordered now
+				if err != nil {
+					return err
+				}
+				return txn.Put(dbi, le32(7), mkStored(clock, uint64(txn.ID()), 0, 0, []byte("re")), 0)
+			})
 		}
 		if native && r.Chance(12) { // plant a malformed stored value
 			_ = env.Update(func(txn *lmdb.Txn) error {
@@ -309,9 +366,13 @@ func areaInstance(r *Rng, n int, dir string) (*AreaOut, error) {
 			cancelNow()
 			runCtx = c2
 		}
-		cfg := fmt.Sprintf("(mkICfg %s %s %s %s %s)", cBool(native), cBool(hack), cBool(pad), cBool(recvOnly), cBool(cancelled))
+		var ovc []string
+		for _, o := range ovrs {
+			ovc = append(ovc, fmt.Sprintf("(%s, %d)", cBytes([]byte(o.name)), o.flags))
+		}
+		cfg := fmt.Sprintf("(mkICfg %s %s %s %s %s %s)", cBool(native), cBool(hack), cBool(pad), cBool(recvOnly), cBool(cancelled), lst(ovc))
 
-		if r.Chance(25) {
+		if recreated || r.Chance(25) {
 			// ---------------- SendOnce ----------------
 			var retID uint64
 			var sendErr error
@@ -354,8 +415,11 @@ func areaInstance(r *Rng, n int, dir string) (*AreaOut, error) {
 				// oracle C06: metadata and name
 				out.OracleN++
 				ni, perr := snapshot.ParseName(names[len(names)-1])
-				if sn.Meta.DatabaseName != dbName || sn.Meta.InstanceID != "a" || sn.Meta.TimestampNano != clock || perr != nil || uint64(ni.Timestamp.UnixNano()) != clock || ni.InstanceID != "a" || ni.SyncerName != dbName {
-					out.Oracle = append(out.Oracle, OracleFailure{"C06", "meta", fmt.Sprintf("name %s meta %+v do not carry database/instance/time %d of the image", names[len(names)-1], sn.Meta, clock), nil})
+				wantName := clock + uint64(nameShift)
+				if sn.Meta.DatabaseName != dbName || sn.Meta.InstanceID != "a" || sn.Meta.TimestampNano != clock || perr != nil || uint64(ni.Timestamp.UnixNano()) != wantName || ni.InstanceID != "a" || ni.SyncerName != dbName {
+					for _, pid := range []string{"C06", "C15"} {
+						out.Oracle = append(out.Oracle, OracleFailure{pid, "meta", fmt.Sprintf("name %s meta %+v do not carry database/instance/time of the image (image taken at %d; name timestamp expected %d, a hook moved it by %v)", names[len(names)-1], sn.Meta, clock, wantName, nameShift), nil})
+					}
 				}
 				for _, f := range dumpOracle(native, after, up) {
 					out.Oracle = append(out.Oracle, f)
@@ -592,6 +656,61 @@ func areaInstance(r *Rng, n int, dir string) (*AreaOut, error) {
 			for _, f := range mergeResultOracle(native || !lc, native, fmtv, cutoff, before, after, seenDBIs) {
 				f.Input = in
 				out.Oracle = append(out.Oracle, f)
+				if f.Property == "C18" { // the same fact is C02's: the stored version is the join, never an older one
+					f.Property, f.Clause = "C02", "merge-is-join"
+					out.Oracle = append(out.Oracle, f)
+				}
+			}
+			// C11: after the step the application DBIs hold exactly the live entries of the merged (shadow) state
+			// (entries with an empty value: known finding F6, skipped; DUPSORT DBIs: C20)
+			if !native {
+				byName := map[string]dbiDump{}
+				for _, d := range after {
+					byName[d.Name] = d
+				}
+				for _, d := range after {
+					if strings.HasPrefix(d.Name, "_sync") || d.Flags&lmdb.DupSort != 0 {
+						continue
+					}
+					sh, ok := byName[shadowPrefix+d.Name]
+					if !ok {
+						continue
+					}
+					want := map[string][]byte{}
+					bad := false
+					for _, p := range sh.Data {
+						lv, ok := logical(p.V)
+						if !ok {
+							bad = true
+							break
+						}
+						if !lv.Del && len(lv.Val) > 0 {
+							want[string(p.K)] = lv.Val
+						} else if lv.Del && len(lv.Val) > 0 {
+							// a marker carrying a value: LS must never write one (C14); whatever wrote it, the key is deleted
+							delete(want, string(p.K))
+						}
+					}
+					if bad {
+						continue
+					}
+					got := map[string][]byte{}
+					for _, p := range d.Data {
+						got[string(p.K)] = p.V
+					}
+					for k, v := range want {
+						if g, ok := got[k]; !ok || !bytes.Equal(g, v) {
+							out.Oracle = append(out.Oracle, OracleFailure{"C11", "mirror-after-load", fmt.Sprintf("DBI %s key %x: merged state is live with value %x, the application DBI has present=%v value %x", d.Name, k, v, ok, g), in})
+							break
+						}
+					}
+					for k, g := range got {
+						if _, ok := want[k]; !ok {
+							out.Oracle = append(out.Oracle, OracleFailure{"C11", "mirror-after-load", fmt.Sprintf("DBI %s key %x: the application DBI holds %x but the merged state has no live non-empty entry for it", d.Name, k, g), in})
+							break
+						}
+					}
+				}
 			}
 			// C10: merging the same snapshot again, with nothing changed locally, commits nothing
 			// (DBIs under the dupsort hack excepted) and reports no local change
